@@ -1,4 +1,5 @@
 import GoSSE.Proofs.JoeMore
+import GoSSE.Proofs.GenEquivServer
 /-!
 # C03 — Joe delivers each message exactly once, in order, to matching subscribers
 
@@ -97,5 +98,16 @@ example : ∃ (c : Cfg) (s s' : St) (ls : List Label), Reachable c s ∧ Run c s
   | none =>
     have : (run c (GoSSE.Model.Joe.init true) ls).isSome = true := by decide
     rw [hr] at this; simp at this
+
+/-! ### The translated source text (regenerated from /repo's server.go on every run) -/
+
+/-- `Server.Publish(m, topics...)` publishes on `getTopics(topics)`: **as translated from server.go**, the topics as
+given, or — when none are given — exactly the default topic (the empty name), so that "whose topics intersect the
+message's topics" reads the same through the server's entry point as through `Joe.Publish`. -/
+theorem translated_getTopics (fuel : Nat) (l : List Bytes) :
+    Gen.getTopics fuel l = .ok (if l.isEmpty then [[]] else l) :=
+  GenEquiv.getTopics_eq fuel l
+
+example : Gen.getTopics 0 [] = .ok [[]] ∧ Gen.getTopics 0 [[110], []] = .ok [[110], []] := ⟨rfl, rfl⟩
 
 end GoSSE.Props.C03
